@@ -17,6 +17,7 @@
 package stream
 
 import (
+	"github.com/rulego/streamsql/verifhook"
 	"sync/atomic"
 	"time"
 )
@@ -37,6 +38,7 @@ func (s *Stream) safeSendToDataChan(data map[string]any) bool {
 	}
 	s.dataChanMux.RLock()
 	defer s.dataChanMux.RUnlock()
+	verifhook.At("send.locked", s, 0, 0, 0)
 	if s.dataChan == nil {
 		return false
 	}
@@ -120,6 +122,7 @@ func (s *Stream) expandDataChannel() {
 	// Safely migrate data using write lock
 	s.dataChanMux.Lock()
 	oldChan := s.dataChan
+	verifhook.At("exp.lock", s, int64(oldCap), int64(newCap), int64(len(oldChan)))
 
 	// Quickly migrate data from old channel to new channel
 	migrationTimeout := time.NewTimer(5 * time.Second) // 5 second migration timeout
@@ -132,6 +135,7 @@ func (s *Stream) expandDataChannel() {
 			select {
 			case newChan <- data:
 				migratedCount++
+				verifhook.At("exp.item", s, int64(migratedCount), 0, 0)
 			case <-migrationTimeout.C:
 				s.log.Warn("Data migration timeout, some data may be lost during expansion")
 				goto migration_done
@@ -148,6 +152,7 @@ func (s *Stream) expandDataChannel() {
 migration_done:
 	// Atomically update channel reference
 	s.dataChan = newChan
+	verifhook.At("exp.swap", s, int64(newCap), int64(migratedCount), 0)
 	s.dataChanMux.Unlock()
 
 	s.log.Debug("Channel expansion completed: migrated %d items", migratedCount)
